@@ -152,7 +152,9 @@ ValuesOf(name, Pl, mode) ==       \* mode "rt": the documented round-trippable d
                 In1 == {O(<<<<<<64>> \o n_attr, S(a)>>, <<n_c, x>>>>) : a \in {<<>>, <<34>>}, x \in {None} \cup In2} IN
             {O(<<<<n_a, p>>, <<n_b, q>>>>) : p \in In1, q \in In1}
       [] name = "F20" -> {O(<<<<n_m, O(ps)>>>>) : ps \in {<<>>} \cup {<<<<<<107, 49>>, S(a)>>>> : a \in Pl}
-                            \cup {<<<<<<95, 107>>, S(b)>>, <<<<107, 49>>, S(a)>>>> : a \in StrSmall, b \in StrSmall}}   \* BTreeMap: keys in byte order
+                            \cup {<<<<<<95, 107>>, S(b)>>, <<<<107, 49>>, S(a)>>>> : a \in StrSmall, b \in StrSmall}   \* BTreeMap: keys in byte order
+                            \* name-like keys with every kind of name character after the first: '-', '.', digit, non-ASCII (middle dot, e-acute)
+                            \cup {<<<<<<97, 45, 98>>, S(a)>>, <<<<97, 46, 98>>, S(b)>>, <<<<97, 49>>, S(a)>>, <<<<97, 194, 183>>, S(b)>>, <<<<97, 195, 169>>, S(a)>>>> : a \in {<<97>>, <<60>>}, b \in {<<>>, <<38>>}}}
       [] name = "F22" -> {O(<<<<n_a, A(xs)>>, <<n_b, A(ys)>>, <<<<64>> \o n_x, Nm(<<55>>)>>, <<n_c, S(c)>>>>) :
                             xs \in Seqs({S(<<97>>), S(<<60>>)}, 2), ys \in Seqs(ItemVals({<<>>, <<97>>}), 2), c \in {<<>>, <<38>>}}
       [] name = "F23" -> {O(<<<<n_a, A(xs)>>, <<n_b, A(ys)>>, <<n_d, A(zs)>>>>) :
@@ -187,7 +189,7 @@ ValuesOf(name, Pl, mode) ==       \* mode "rt": the documented round-trippable d
       [] OTHER -> {}
 
 \* root tags passed to the serializer (to_string_with_root); the default is the type name
-HostileRoots == { <<97, 47>>, <<97, 47, 98>>, <<>>, <<60>>, <<97, 32, 98>>, <<49, 97>>, <<97, 62>>, <<195, 169>>, <<120, 58, 121>>, <<45, 97>>, <<114>> }
+HostileRoots == { <<120, 46, 121>>, <<120, 45, 49>>, <<120, 194, 183>>, <<97, 47>>, <<97, 47, 98>>, <<>>, <<60>>, <<97, 32, 98>>, <<49, 97>>, <<97, 62>>, <<195, 169>>, <<120, 58, 121>>, <<45, 97>>, <<114>> }
 
 RTTypes == {"F01", "F02", "F03", "F04", "F05", "F07", "F08", "F11", "F15", "F16", "F17", "F18", "F19", "F20", "F22", "F23", "F24", "F25", "F26", "F27", "F28", "F29"}
 =============================================================================
